@@ -351,7 +351,7 @@ def check_bits_provenance(chk, prog, env, model, rulename='C08.bits-provenance')
             if not succ:
                 raise AnalysisBroken('%s: importer %s has no successful path' % (rulename, fn))
     chk.rule(rulename, 'asymmetric importers: on every successful exit item->bits is exactly the number EVP_PKEY_get_size_t_param(pkey, "bits") '
-                       'reported', n, bad, floor=30)
+                       'reported', n, bad, floor=3)
 
 
 def run(chk, prog, tier):
